@@ -112,8 +112,18 @@ NKS = NKM + 1  # quick key pool of the marker obligations: serializers.py's own 
 # ------------------------------------------------------------------------------------------------ routes
 
 
+_BETWEEN: List[Any] = [None]   # what happens between the writer and the reader (ob_exception_reader_has_not_imported: another process)
+
+
+def _between() -> None:
+    if _BETWEEN[0] is not None:
+        _BETWEEN[0]()
+
+
 def _json_rt(v: Any) -> Any:
-    return S.deserialize(S.serialize(v))
+    wire = S.serialize(v)
+    _between()
+    return S.deserialize(wire)
 
 
 def _value_rt(v: Any) -> Any:
@@ -129,12 +139,15 @@ def payload_ok(v: Any) -> bool:
 
 def _env_rt(ev: Any, registry: List[type]) -> Any:
     env = EventEnvelopeWithMetadata.from_event(ev)
-    env2 = EventEnvelopeWithMetadata.model_validate_json(env.model_dump_json())
+    wire = env.model_dump_json()
+    _between()
+    env2 = EventEnvelopeWithMetadata.model_validate_json(wire)
     return env2.load_event(registry)
 
 
 def _tick_rt(t: Any) -> Any:
     wire = json.dumps(WorkflowTickAdapter.dump_python(t, mode="json"))
+    _between()
     return WorkflowTickAdapter.validate_python(json.loads(wire))
 
 
@@ -528,6 +541,40 @@ def ob_exception_roundtrip(xi: int, mi: int, carrier: int) -> bool:
         except Exception:
             return False
         return type(back) is type(exc) and str(back) == str(exc)
+
+
+_XMODS = [("vlib.h_exc_mod", "AppError"), ("configparser", "Error"), ("zipfile", "BadZipFile")]
+
+
+@obligation(quick=90, thorough=200,
+            what="the READER is another process (a restarted server replaying its journal, a client): the module that defines the exception class is "
+                 "not among its loaded modules when the data is read (emulated: the module is taken out of sys.modules between the write and "
+                 "the read) — the exception still comes back as that class (module + qualified name) with the same str(), through all 6 carriers",
+            bounds={"exception classes": "an application module's / configparser.Error / zipfile.BadZipFile", "carriers": 6})
+def ob_exception_reader_has_not_imported(pi: int, carrier: int) -> bool:
+    """
+    pre: 0 <= pi < len(_XMODS) and 0 <= carrier <= 5
+    post: _
+    """
+    pi, carrier = cint(pi, 0, len(_XMODS) - 1), cint(carrier, 0, 5)
+    with untraced():
+        import importlib
+        import sys
+
+        name, clsname = _XMODS[pi]
+        mod = importlib.import_module(name)
+        exc = getattr(mod, clsname)("boom")
+        _BETWEEN[0] = lambda: sys.modules.pop(name, None)
+        try:
+            with warnings.catch_warnings():
+                warnings.simplefilter("ignore")
+                back = _exception_back(exc, carrier)
+        except Exception:
+            return False
+        finally:
+            _BETWEEN[0] = None
+            sys.modules[name] = mod
+        return type(back).__module__ == name and type(back).__qualname__ == clsname and str(back) == str(exc)
 
 
 # ------------------------------------------------------------------------------------------------ same short name, two modules
